@@ -137,7 +137,7 @@ func verifRecordState() (*interp, *verifRec) {
 			fs = string([]byte{c})
 		}
 		p.fieldSep, r.curFS, r.fs = fs, fs, fs
-		line := verifString(verifIntRange(0, verifBound(3, 4)))
+		line := verifString(verifIntRange(0, verifC06Bound(3, 4)))
 		for i := 0; i < len(line); i++ {
 			verifAssume(line[i] != '\v' && line[i] != '\f' && line[i] != '\r' && line[i] < 0x80)
 		}
@@ -145,7 +145,7 @@ func verifRecordState() (*interp, *verifRec) {
 		r.line = line
 		r.fields = verifRefSplit(line, fs)
 	} else {
-		k := verifIntRange(0, verifBound(2, 3))
+		k := verifIntRange(0, verifC06Bound(2, 3))
 		for i := 0; i < k; i++ {
 			f := verifString(verifIntRange(0, 1))
 			p.fields = append(p.fields, f)
@@ -160,8 +160,18 @@ func verifRecordState() (*interp, *verifRec) {
 	return p, r
 }
 
+// verifC06FirstOp: the operation is the first of two: it is drawn from the state-changing operations only, with small
+// concrete field indexes and NF values (the second operation ranges over everything)
+var verifC06FirstOp = false
+
 func verifRecordOp(p *interp, r *verifRec) string {
-	switch verifIntRange(0, 7) {
+	op := 0
+	if verifC06FirstOp {
+		op = []int{3, 4, 5, 6, 7}[verifIntRange(0, 4)]
+	} else {
+		op = verifIntRange(0, 7)
+	}
+	switch op {
 	case 0: // read $i for any i
 		i := verifInt()
 		before := *r
@@ -176,7 +186,12 @@ func verifRecordOp(p *interp, r *verifRec) string {
 		_ = p.getField(0)
 		return "after reading $0"
 	case 3: // $i = v
-		i := verifInt()
+		i := 0
+		if verifC06FirstOp {
+			i = verifIntRange(-1, 4)
+		} else {
+			i = verifInt()
+		}
 		v := verifString(verifIntRange(0, 1))
 		verifAssume(i <= 5 || i > maxFieldIndex) // keep the record small; larger legal indexes are outside the bound
 		if i == 0 {
@@ -193,7 +208,12 @@ func verifRecordOp(p *interp, r *verifRec) string {
 		r.set(i, v)
 		return "after $i = v"
 	case 4: // NF = x for any float
-		x := verifFloat64()
+		x := 0.0
+		if verifC06FirstOp {
+			x = float64(verifIntRange(0, 4))
+		} else {
+			x = verifFloat64()
+		}
 		verifAssume(!(x >= 6 && x <= maxFieldIndex+1)) // small records only; NaN, negative and huge values are in
 		err := p.setSpecial(ast.V_NF, num(x))
 		if err != nil {
@@ -205,7 +225,7 @@ func verifRecordOp(p *interp, r *verifRec) string {
 		r.setNF(int(x))
 		return "after NF = x"
 	case 5: // $0 = v
-		v := verifString(verifIntRange(0, verifBound(2, 3)))
+		v := verifString(verifIntRange(0, verifC06Bound(2, 3)))
 		for i := 0; i < len(v); i++ {
 			verifAssume(v[i] != '\v' && v[i] != '\f' && v[i] != '\r' && v[i] < 0x80)
 		}
@@ -236,9 +256,24 @@ func VerifC06OneStep() {
 	verifSameRecord(p, r, what)
 }
 
+// verifC06Small makes the state and payload generators use one less than their quick sizes (line <= 2 bytes, <= 1 prepared field, $0 = one byte) (two
+// operations from the larger states did not finish in an hour)
+var verifC06Small = false
+
+func verifC06Bound(quick, thorough int) int {
+	if verifC06Small {
+		return quick - 1
+	}
+	return verifBound(quick, thorough)
+}
+
 func VerifC06TwoSteps() {
+	verifC06Small = true
+	defer func() { verifC06Small = false }()
 	p, r := verifRecordState()
+	verifC06FirstOp = true
 	_ = verifRecordOp(p, r)
+	verifC06FirstOp = false
 	what := verifRecordOp(p, r)
 	verifSameRecord(p, r, what+" (second operation)")
 }
